@@ -501,3 +501,32 @@ func genFaults(c *ctx, emit func(string)) {
 		emit(strings.Join(g.ops, " ") + " " + probeOps(c, r, strings.Join(g.ops, " ")))
 	}
 }
+
+// codecid: codec identifiers (C12): reserved ids are rejected by Open, a
+// directory written with one id refuses another, and a WAL created with a
+// custom codec reopens with that same codec.
+func genCodecID(c *ctx, emit func(string)) {
+	r := rand.New(rand.NewSource(c.seed))
+	ids := []uint64{1, 0, 2, 65535, 65536, 65537, 1 << 32, 1<<64 - 1}
+	for i := 0; i < c.n; i++ {
+		id := ids[r.Intn(len(ids))]
+		if r.Intn(3) == 0 {
+			id = r.Uint64()
+		}
+		mode := "m"
+		if i%4 == 3 {
+			mode = "r"
+		}
+		g := newWgen(r, mode)
+		g.ops = []string{fmt.Sprintf("wal %x %x %s", g.seg, id, mode), "O"}
+		for j := 0; j < 2+r.Intn(5); j++ {
+			g.store()
+		}
+		g.ops = append(g.ops, "A", "X", "O", "A") // same codec: must reopen with identical contents
+		other := ids[r.Intn(len(ids))]
+		g.ops = append(g.ops, "X", fmt.Sprintf("Q %x", other), "O", "A", "X", fmt.Sprintf("Q %x", id), "O", "A", "X")
+		emit(strings.Join(g.ops, " "))
+	}
+}
+
+func init() { streams["codecid"] = &stream{gen: genCodecID, exec: execWal} }
